@@ -139,13 +139,35 @@ let known_by_model (c : case) (r : run) (entry : string) (impl : obs) : bool =
 let narrow (c : case) (r : run) (entry : string) (impl : obs) (cls : string) : string =
   if cls <> "NONE" && not (known_by_model c r entry impl) then "NONE" else cls
 
+(* ids of the other cases a relation over several cases was evaluated on (groups, comparison tables):
+   the replay file carries all of them *)
+let related : string list ref = ref []
 let prop_line tag (c : case) clause cls detail =
   bump ("prop_" ^ tag);
-  Printf.printf "PROP %s %s %s clause=%s class=%s detail=%s text=%s\n" tag c.id c.family clause cls detail (qs c.text)
+  let rel = match !related with [] -> "" | l -> " related=" ^ String.concat "," l in
+  Printf.printf "PROP %s %s %s clause=%s class=%s%s detail=%s text=%s\n" tag c.id c.family clause cls rel detail (qs c.text)
+
+(* .keyvalue() ids are heap addresses; the model's are tags.  Renaming makes them comparable as OUTPUT, but not
+   when an id flows on into a further step (a method, arithmetic, a comparison): then the outcome depends on its
+   digits.  An id is exposed by the key "id" or by a wildcard over the generated triple. *)
+let rec id_flows_on (top : bool) (ch : chain) : bool =
+  match ch with
+  | [] -> false
+  | s :: rest ->
+    let exposing = (match s with SKey k -> unchars k = "id" | s -> is_wild s) in
+    (exposing && (rest <> [] || not top))
+    || (match s with
+        | SBin (_, l, r) -> id_flows_on false l || id_flows_on false r
+        | SUn (_, a) -> id_flows_on false a
+        | SRegex (a, _, _) -> id_flows_on false a
+        | SIndex subs -> List.exists (fun (x, y) -> id_flows_on false x || (match y with Some c -> id_flows_on false c | None -> false)) subs
+        | _ -> false)
+    || id_flows_on top rest
 
 (* ---------- T: model vs implementation ---------- *)
 let tie_leg (c : case) =
   let lib = lib_of c in
+  if c.haskv && id_flows_on true c.path.p_root then bump "skipped_kv_id_flows" else
   List.iter (fun r ->
       bump "runs";
       let o = opts_of c r in
@@ -202,9 +224,14 @@ let spec_leg (c : case) =
       if r.k < 0 && not (reads_kv_id c) then begin
         let o = opts_of c r in
         List.iter (fun (entry, (impl, _)) ->
+            (* member order is open: whether an evaluation meets an error at all can depend on it (a predicate
+               stops at the first error), so only two item lists are compared, as multisets; and .* / .** over the
+               {id,key,value} objects that .keyvalue() generates (Go maps, iterated in random order) are not compared *)
             let comparable =
               if not c.unordered then true
-              else (entry = "query" && not r.silent && (match impl with ObItems _ -> true | _ -> false)) in
+              else if c.haskv && chain_has is_wild c.path.p_root then false
+              else (entry = "query" && not r.silent
+                    && (match impl, spec_obs lib c o entry quirks_code with ObItems _, ObItems _ -> true | _ -> false)) in
             if comparable then begin
               bump "spec_comparisons";
               missed := false;
@@ -249,6 +276,27 @@ let thm_leg (c : case) =
   if not h_ex then bump "thm_hyp_exists_ok_fails";
   if not h_no then bump "thm_hyp_ne_ops_fails";
   if not h_ut then bump "thm_hyp_unary_tail_free_fails";
+  (* proofs/Total.v (C05_query_returns, C05_fuel_monotone): with the explicit bound fuel_for the model
+     returns, and more fuel does not change the answer *)
+  List.iter (fun r ->
+      if r.k < 0 && not r.silent then begin
+        let o = opts_of c r in
+        let ff = fuel_for c.path c.doc o in
+        missed := false;
+        (match api_query lib ff c.path c.doc o with
+         | Ret _ as x ->
+           bump "thm_total_instances";
+           let big = obs_of_q (api_query lib fuel c.path c.doc o) in
+           if not (obs_eqb false c.kv (obs_of_q x) big) && not !missed then begin
+             bump "thm_failures";
+             Printf.printf "THM %s %s query silent=false theorem=fuel_monotone model=%s spec=%s text=%s\n"
+               c.id c.family (string_of_obs (obs_of_q x)) (string_of_obs big) (qs c.text)
+           end
+         | _ ->
+           bump "thm_failures";
+           Printf.printf "THM %s %s query silent=false theorem=query_returns model=(no answer with fuel_for = %d) spec=(an answer) text=%s\n"
+             c.id c.family (int_of_nat ff) (qs c.text))
+      end) c.runs;
   if h_ne && h_kv && h_ex && h_no then begin
     bump "thm_hyp_ok";
     List.iter (fun r ->
@@ -583,6 +631,7 @@ let cmp_case : (string, case) Hashtbl.t = Hashtbl.create 128
 let opname = function BEq -> "eq" | BNe -> "ne" | BLt -> "lt" | BGt -> "gt" | BLe -> "le" | BGe -> "ge" | _ -> "?"
 
 let cmp_modes : string list ref = ref []
+let cmp_ids : (string, string list) Hashtbl.t = Hashtbl.create 4096
 let collect_c12 (c : case) =
   let shape = (match c.path.p_root with
       | [SBin ((BEq | BNe | BLt | BGt | BLe | BGe) as op, [SVar ['x']], [SVar ['y']])] -> Some (op, "", "")
@@ -601,7 +650,8 @@ let collect_c12 (c : case) =
        let sx = pre ^ string_of_json x and sy = pre ^ string_of_json y in
        Hashtbl.replace cmp_vals sx x; Hashtbl.replace cmp_vals sy y;
        Hashtbl.replace cmp_cells (String.concat "|" [mode; sx; sy; opname op]) out;
-       Hashtbl.replace cmp_case (String.concat "|" [mode; sx; sy]) c
+       Hashtbl.replace cmp_case (String.concat "|" [mode; sx; sy]) c;
+       Hashtbl.replace cmp_ids (String.concat "|" [mode; sx; sy]) (c.id :: (try Hashtbl.find cmp_ids (String.concat "|" [mode; sx; sy]) with Not_found -> []))
      | None -> ())
   | _ -> ()
 
@@ -623,7 +673,12 @@ let finish_c12 () =
       let cls = (match find_run c false (-1) with
           | Some r -> (match obs_in r "query" with Some impl -> narrow c r "query" impl cls | None -> cls)
           | None -> cls) in
-      prop_line "C12" c clause cls detail
+      (* every case of the pairs among the values involved (x, y and, for transitivity, the middle value) *)
+      let vs = x :: y :: (if String.length detail > 4 && String.sub detail 0 4 = "via " then [String.sub detail 4 (String.length detail - 4)] else []) in
+      related := List.concat_map (fun a -> List.concat_map (fun b ->
+          try Hashtbl.find cmp_ids (String.concat "|" [mode; a; b]) with Not_found -> []) vs) vs;
+      prop_line "C12" c clause cls detail;
+      related := []
     | None -> () in
   let cls_of xs = if List.exists (fun x -> big_number lib (Hashtbl.find cmp_vals x)) xs then "C12-mixed-number-precision" else "NONE" in
   List.iter (fun mode ->
@@ -704,6 +759,7 @@ let query_verbose (c : case) : obs option =
   match find_run c false (-1) with Some r -> obs_in r "query" | None -> None
 
 let finish_group (g : string) (members : (string * case) list) =
+  related := List.map (fun (_, (c : case)) -> c.id) members;
   let get role = List.assoc_opt role members in
   match members with
   | (_, c0) :: _ when c0.family = "group11" ->
@@ -873,10 +929,10 @@ let () =
      done
    with End_of_file -> ());
   finish_c12 ();
-  List.iter (fun g -> finish_group g (List.rev (Hashtbl.find groups g))) (List.rev !group_order);
+  List.iter (fun g -> finish_group g (List.rev (Hashtbl.find groups g)); related := []) (List.rev !group_order);
   Printf.printf "STAT distinct_nontrivial n=%d\n" (count "distinct_nontrivial");
   List.iter (fun name -> if count name > 0 then Printf.printf "STAT %s n=%d\n" name (count name))
-    ["thm_cases"; "thm_hyp_ok"; "thm_hyp_quirk_free"; "thm_instances"; "thm_ideal_instances"; "thm_failures"; "thm_premise_not_ret"; "thm_hyp_no_kv_fails"; "thm_hyp_exists_ok_fails";
+    ["skipped_kv_id_flows"; "thm_cases"; "thm_hyp_ok"; "thm_hyp_quirk_free"; "thm_instances"; "thm_ideal_instances"; "thm_total_instances"; "thm_failures"; "thm_premise_not_ret"; "thm_hyp_no_kv_fails"; "thm_hyp_exists_ok_fails";
      "thm_hyp_ne_ops_fails"; "thm_hyp_unary_tail_free_fails"; "c12_pairs"; "c12_triples"; "c13_checked"; "c11_groups"; "c09_groups"; "c10_groups"; "cancel_runs";
      "prop_C05"; "prop_C06"; "prop_C08"; "prop_C09"; "prop_C10"; "prop_C11"; "prop_C12"; "prop_C13"; "prop_C16"; "prop_C20"];
   Printf.printf "SUMMARY cases=%d runs=%d comparisons=%d ties=%d polls=%d impure=%d skipped=%d oracle_miss=%d spec_comparisons=%d spec_mismatches=%d\n"
